@@ -30,17 +30,17 @@ RULE_MODULES: Dict[str, str] = {
 # property -> list of obligation-id prefixes ("R1" selects every obligation of R1,
 # "R1/O3" only that sub-obligation)
 PROPERTY_RULES: Dict[str, List[str]] = {
-    "C01": ["R8", "R1/O1", "R1/O4", "R1/O5", "R2/INFLIGHT", "R2/sink", "R2/anc", "R2/own", "R2/until", "R2/extra", "R3/P1", "R3/P4", "R3/P5", "R5", "R6",
+    "C01": ["R7/R9", "R8", "R1/O1", "R1/O4", "R1/O5", "R2/INFLIGHT", "R2/sink", "R2/anc", "R2/own", "R2/until", "R2/extra", "R3/P1", "R3/P4", "R3/P5", "R5", "R6",
             "R20/table/input_delays", "R20/delay", "R19/interval", "R19/anc-closure"],
-    "C02": ["R8", "R2/INFLIGHT", "R2/anc", "R2/own", "R3/P", "R4", "R5", "R11/schedule", "R11/sched-value", "R11/time-arg", "R11/last-step", "R20/table/triggers", "R20/delay",
+    "C02": ["R22/readers", "R7/R9", "R8", "R2/INFLIGHT", "R2/anc", "R2/own", "R3/P", "R4", "R5", "R11/schedule", "R11/sched-value", "R11/time-arg", "R11/last-step", "R20/table/triggers", "R20/delay",
             "R19/anc-closure"],
     "C03": ["R21", "R8/lift", "R17", "R5/store", "R5/update_min", "R20/delay", "R20/table", "R11/out", "R4/outtime", "R1/O1"],
     "C04": ["R18", "R21", "R8", "R5", "R6", "R17", "R10/R18", "R1/O3", "R20/table", "R20/delay"],
     "C05": ["R3/INIT", "R8", "R1/O4", "R1/O5", "R2", "R4/wake", "R4/settle", "R4/wait", "R5", "R6", "R7/site", "R19/anc-closure"],
-    "C06": ["R5", "R6", "R7/site", "R19"],
+    "C06": ["R5", "R6", "R7/site", "R7/R9", "R19", "R20/delay"],
     "C07": ["R2/INFLIGHT", "R2/sink", "R2/anc", "R2/own", "R2/until", "R2/extra", "R3/P3", "R5/store", "R5/update_min", "R19/anc-closure"],
     "C08": ["R6"],
-    "C09": ["R8/lift", "R3/R12", "R4/outtime", "R19/interval"],
+    "C09": ["R7/R9", "R4/wake", "R8/lift", "R3/R12", "R4/outtime", "R19/interval"],
     "C10": ["R1/O3", "R1/O4", "R2/INFLIGHT", "R2/sink", "R2/own", "R20/table/successors", "R20/delay", "R20/async", "R10/R18"],
     "C11": ["R7/R9", "R20", "R19/interval", "R19/group_path", "R22/readers", "R22/tuple"],
     "C12": ["R22"],
